@@ -40,6 +40,7 @@ class Obligation:
     detail: str = ''
     nontrivial: bool = True
     known: Optional[dict] = None
+    origin: str = ''        # property whose rule set produced it, when imported into a related property's thorough tier
 
 
 class Ctx:
@@ -90,15 +91,42 @@ def load_known() -> list[dict]:
 
 
 def match_known(prop: str, o: Obligation, known: list[dict]) -> Optional[dict]:
+    prop = o.origin or prop
+    rule = o.rule.split('/', 1)[1] if o.origin and '/' in o.rule else o.rule
     for k in known:
         if k.get('status') != 'known' or k.get('property') != prop:
             continue
-        if k.get('rule') != o.rule:
+        if k.get('rule') != rule:
             continue
         if k.get('construct') and k['construct'] != o.construct:
             continue
         return k
     return None
+
+
+# Properties whose mechanisms overlap (same functions, same tables): used by the thorough tier.
+RELATED = {
+    'C01': ['C07', 'C17', 'C20', 'C19'],
+    'C02': ['C11', 'C14', 'C03'],
+    'C03': ['C02', 'C08', 'C07', 'C04', 'C19', 'C14'],
+    'C04': ['C16', 'C03'],
+    'C05': ['C14', 'C02', 'C15'],
+    'C06': ['C08', 'C09', 'C05', 'C07', 'C15'],
+    'C07': ['C01', 'C08', 'C06'],
+    'C08': ['C06', 'C07', 'C03', 'C18'],
+    'C09': ['C10', 'C06', 'C20', 'C13'],
+    'C10': ['C09', 'C11'],
+    'C11': ['C02', 'C10', 'C09', 'C18'],
+    'C12': ['C19', 'C17', 'C20'],
+    'C13': ['C19', 'C09', 'C20'],
+    'C14': ['C05', 'C02'],
+    'C15': ['C05', 'C18', 'C06'],
+    'C16': ['C04', 'C02'],
+    'C17': ['C01', 'C12', 'C20'],
+    'C18': ['C15', 'C11', 'C08'],
+    'C19': ['C12', 'C13', 'C20', 'C03'],
+    'C20': ['C09', 'C13', 'C01', 'C19'],
+}
 
 
 @dataclass
@@ -131,6 +159,24 @@ def run_check(pid: str, tier: str, explain: Optional[str] = None) -> int:
         spec = load_prop(pid)
         ctx = Ctx(pid, tier, repo)
         spec.check(ctx)
+        imported = []
+        if tier == 'thorough':
+            # thorough tier: additionally decide the rule sets of the properties that share this property's mechanisms
+            # (the same functions/tables serve several properties; a clause "owned" by one is a necessary condition of the others)
+            for other in RELATED.get(pid, []):
+                sub = Ctx(other, tier, repo)
+                load_prop(other).check(sub)
+                for o in sub.obligations:
+                    o.origin = other
+                    o.rule = f'{other}/{o.rule}'
+                    ctx.obligations.append(o)
+                    ctx.rules_seen[o.rule] = ctx.rules_seen.get(o.rule, 0) + 1
+                ctx.functions |= sub.functions
+                for k, v in sub.counters.items():
+                    ctx.counters[k] = ctx.counters.get(k, 0) + v
+                imported.append(other)
+            if imported:
+                ctx.notes.append('thorough tier also decided the rule sets of the related properties ' + ', '.join(imported))
     except AnalysisError as e:
         print(f'ANALYSIS-ERROR property={pid}: {e}')
         _write_error_evidence(pid, tier, seed, str(e), time.time() - t0, ev_path)
@@ -169,7 +215,8 @@ def run_check(pid: str, tier: str, explain: Optional[str] = None) -> int:
         if key in seen_known:
             continue
         seen_known.add(key)
-        print(f'KNOWN-FINDING: property={pid} {k.get("id", "")} {o.rule} {o.loc} {k.get("what", o.what)}')
+        print(f'KNOWN-FINDING: property={pid} {k.get("id", "")} {o.rule} {o.loc} {k.get("what", o.what)}'
+              + (f' (listed for {o.origin}, whose rule set the thorough tier of {pid} includes)' if o.origin else ''))
     for k in known:
         if k.get('property') == pid and k.get('status') == 'fixed':
             print(f'  fixed: property={pid} {k.get("commit", "")} {k.get("what", "")}')
